@@ -177,6 +177,7 @@ fn main() {
         "{{ __tera_context }}{{ __tera_context.a }}",
         "{% set m = {\"x\": nope} %}[{{ m.x }}]",
         "{{ a?.x.y }}{{ a.x?.y }}",
+        "{{ (a.x if c else b.y)[0] }}{% if (c or a.x)[\"y\"] %}{{ (b or a.y) | default(value=c.x) }}{% endif %}",
         "{% for k, v in a %}{{ k }}{{ v.x }}{% if v.y %}{% break %}{% endif %}{% endfor %}",
     ];
     let mut sources: Vec<(String, String)> = hand.iter().enumerate().map(|(i, s)| (format!("hand#{i}"), s.to_string())).collect();
